@@ -56,6 +56,28 @@ func (p *ParseContext) HasValidStmt() bool {
 	return p.InsertStmt != nil || p.UpdateStmt != nil || p.DeleteStmt != nil
 }
 
+// IsPlainRead tells whether the statement is a SELECT without a locking clause
+func (p *ParseContext) IsPlainRead() bool {
+	return p != nil && p.SelectStmt != nil && p.SQLType == SQLTypeSelect && p.SelectStmt.LockInfo == nil
+}
+
+// AllPlainReads tells whether the statement is a read without a lock, or a text of several statements each of
+// which is one
+func (p *ParseContext) AllPlainReads() bool {
+	if p == nil {
+		return false
+	}
+	if len(p.MultiStmt) == 0 {
+		return p.IsPlainRead()
+	}
+	for _, stmt := range p.MultiStmt {
+		if !stmt.IsPlainRead() {
+			return false
+		}
+	}
+	return true
+}
+
 func (p *ParseContext) GetTableName() (string, error) {
 	var table *ast.TableRefsClause
 
